@@ -54,7 +54,12 @@ class OpenLocked:
 
     def __exit__(self, exc_type, exc_value, traceback):
         try:
-            unlockFile(self.fd)
+            # Buffered updates must hit the file while the lock is still
+            # held. Otherwise the next owner reads a truncated file.
+            try:
+                self.fd.flush()
+            finally:
+                unlockFile(self.fd)
         finally:
             self.fd.close()
 
